@@ -390,7 +390,9 @@ impl Check for CliAgreement {
         let expected = fol::Theory {
             formulas: input.formulas.iter().cloned().map(|f| ops::simplify(f, portfolio, strategy)).collect(),
         };
-        let r = crate::cli::run_env(&bin, &["simplify", "--portfolio", portfolio, "--strategy", strategy.name()], Some(&text), &[], std::time::Duration::from_secs(60));
+        // as a user would write it: comments and blank lines between the formulas
+        let commented: String = std::iter::once("% theory\n\n".to_string()).chain(text.lines().map(|l| format!("{l} % formula\n\n"))).collect();
+        let r = crate::cli::run_env(&bin, &["simplify", "--portfolio", portfolio, "--strategy", strategy.name()], Some(&commented), &[], std::time::Duration::from_secs(60));
         if r.timed_out {
             return Outcome::skip("the command did not finish within 60 s");
         }
